@@ -169,6 +169,16 @@ class WebSession(object):
 
                 request = self._original_request.copy()
                 request.url = url
+
+                # The copy carries fields that were derived from the previous
+                # URL. They must not be replayed to another host.
+                fresh_request = self._request_factory(url)
+
+                for name in ('Host', 'Authorization', 'Cookie'):
+                    request.fields.pop(name, None)
+
+                    if name in fresh_request.fields:
+                        request.fields[name] = fresh_request.fields[name]
             else:
                 request = self._request_factory(url)
 
